@@ -9,12 +9,13 @@ sys.path.insert(0, os.path.dirname(os.path.dirname(os.path.abspath(__file__))))
 
 from harness.runner import Check  # noqa: E402
 
-VARS = {"x": ("real", (2,)), "y": ("real", (2,)), "m": ("real", (2, 2)), "s": ("real", ()), "w": ("real", (2, 2)), "k": ("bint", 2)}
+VARS = {"x": ("real", (2,)), "y": ("real", (2,)), "m": ("real", (2, 2)), "s": ("real", ()), "w": ("real", (2, 2)), "k": ("bint", 2),
+        "c3": ("real", (2, 2, 3))}
 
 
 def gen_programs(rng, n, depth, allow_tensor_consts):
     from lang.gen import well_typed
-    from lang.prog import binary, getitem, getslice, leaf, num, outreduce, reshape, type_of, unary, var
+    from lang.prog import binary, getitem, getitem_at, getslice, leaf, num, outreduce, reshape, type_of, unary, var
     out = []
     for _ in range(n * 4):
         if len(out) >= n:
@@ -38,8 +39,13 @@ def gen_programs(rng, n, depth, allow_tensor_consts):
                     sh = type_of(a)[1][1]
                     e = outreduce(rng.choice(["sum", "amax", "prod", "mean"]), a, rng.choice([None] + list(range(len(sh)))) if sh else None, rng.random() < 0.3)
                 elif kind == "getitem":
-                    a = rng.choice(exprs)
-                    e = getitem(a, kvar) if rng.random() < 0.6 else getslice(a, rng.choice([0, -1, slice(1, None), (Ellipsis, 0), None, (None, Ellipsis), (slice(None), None), Ellipsis]))
+                    a = rng.choice([x for x in exprs if x[0] != "num"])      # a python number cannot be indexed
+                    rk = len(type_of(a)[1][1])
+                    if rk >= 2 and rng.random() < 0.4:      # x[:, k] / x[:, :, k]: GetitemOp(offset) on a middle or last dim of size 2
+                        offs = [o for o in range(1, rk) if type_of(a)[1][1][o] == 2]
+                        e = getitem_at(a, kvar, rng.choice(offs)) if offs else getitem(a, kvar)
+                    else:
+                        e = getitem(a, kvar) if rng.random() < 0.6 else getslice(a, rng.choice([0, -1, slice(1, None), (Ellipsis, 0), None, (None, Ellipsis), (slice(None), None), Ellipsis]))
                 elif kind == "reshape":
                     a = rng.choice([x for x in exprs if type_of(x)[1][1]])
                     sh = type_of(a)[1][1]
@@ -87,6 +93,8 @@ def ops_eval(e, data, leaves, memo=None):
         return getattr(ops, e[1])(ops_eval(e[2], data, leaves), axis=e[3], keepdims=e[4])
     if tag == "getitem":
         return ops.getitem(ops_eval(e[1], data, leaves), ops_eval(e[2], data, leaves))
+    if tag == "getitem_at":
+        return ops.getitem(ops_eval(e[1], data, leaves), ops_eval(e[2], data, leaves), offset=e[3])
     if tag == "getslice":
         return ops.getslice(ops_eval(e[1], data, leaves), e[2])
     if tag == "reshape":
@@ -107,6 +115,8 @@ def _ops_eval_shared(e, data, leaves, memo):
         return getattr(ops, e[1])(ev(e[2]), axis=e[3], keepdims=e[4])
     if tag == "getitem":
         return ops.getitem(ev(e[1]), ev(e[2]))
+    if tag == "getitem_at":
+        return ops.getitem(ev(e[1]), ev(e[2]), offset=e[3])
     if tag == "getslice":
         return ops.getslice(ev(e[1]), e[2])
     if tag == "reshape":
